@@ -1,0 +1,108 @@
+//! Observation hooks for the group scanner (feature `verif-hooks`).
+
+use super::bitmask::BitMask;
+use super::group::BITMASK_STRIDE as STRIDE;
+use super::{Group, Tag};
+use ::alloc::vec::Vec;
+
+/// `Group::WIDTH` of the scanner selected for this build.
+pub const GROUP_WIDTH: usize = Group::WIDTH;
+/// `BITMASK_STRIDE` of the scanner selected for this build.
+pub const BITMASK_STRIDE: usize = STRIDE;
+
+/// Everything the table ever asks of a `BitMask`.
+#[derive(Clone, Debug, PartialEq, Eq, Default)]
+pub struct MaskObs {
+    /// Indices in `BitMaskIter` order.
+    pub iter: Vec<usize>,
+    /// `lowest_set_bit()`.
+    pub lowest_set_bit: Option<usize>,
+    /// `leading_zeros()`.
+    pub leading_zeros: usize,
+    /// `trailing_zeros()`.
+    pub trailing_zeros: usize,
+    /// `any_bit_set()`.
+    pub any_bit_set: bool,
+}
+
+/// The result of every scanner primitive on one group of control bytes.
+#[derive(Clone, Debug, PartialEq, Eq, Default)]
+pub struct GroupObs {
+    /// `match_tag(tag)`.
+    pub match_tag: MaskObs,
+    /// `match_empty()`.
+    pub match_empty: MaskObs,
+    /// `match_empty_or_deleted()`.
+    pub match_empty_or_deleted: MaskObs,
+    /// `match_full()`.
+    pub match_full: MaskObs,
+    /// `convert_special_to_empty_and_full_to_deleted()`, stored back.
+    pub converted: Vec<u8>,
+    /// Whether the aligned and the unaligned load produced the same masks.
+    pub loads_agree: bool,
+}
+
+fn observe(m: BitMask) -> MaskObs {
+    MaskObs {
+        iter: m.into_iter().collect(),
+        lowest_set_bit: m.lowest_set_bit(),
+        leading_zeros: m.leading_zeros(),
+        trailing_zeros: m.trailing_zeros(),
+        any_bit_set: m.any_bit_set(),
+    }
+}
+
+/// Tag byte the table stores for `hash`.
+pub fn tag_full(hash: u64) -> u8 {
+    Tag::full(hash).0
+}
+
+/// Runs the real scanner primitives over `bytes` (exactly `GROUP_WIDTH`
+/// bytes) with `tag` as the byte to match.
+pub fn group_observe(bytes: &[u8], tag: u8) -> GroupObs {
+    assert_eq!(bytes.len(), Group::WIDTH);
+    #[repr(C)]
+    struct Buf {
+        _align: [Group; 0],
+        // one spare group so that an unaligned load at offset 1 stays inside
+        bytes: [Tag; 2 * Group::WIDTH],
+    }
+    let mut buf = Buf {
+        _align: [],
+        bytes: [Tag::EMPTY; 2 * Group::WIDTH],
+    };
+    for (i, b) in bytes.iter().enumerate() {
+        buf.bytes[i] = Tag(*b);
+    }
+    let g = unsafe { Group::load_aligned(buf.bytes.as_ptr()) };
+    // the same bytes through the unaligned load at an odd address
+    let mut shifted = Buf {
+        _align: [],
+        bytes: [Tag::EMPTY; 2 * Group::WIDTH],
+    };
+    for (i, b) in bytes.iter().enumerate() {
+        shifted.bytes[i + 1] = Tag(*b);
+    }
+    let gu = unsafe { Group::load(shifted.bytes.as_ptr().add(1)) };
+    let t = Tag(tag);
+    let loads_agree = observe(g.match_tag(t)) == observe(gu.match_tag(t))
+        && observe(g.match_empty()) == observe(gu.match_empty())
+        && observe(g.match_empty_or_deleted()) == observe(gu.match_empty_or_deleted())
+        && observe(g.match_full()) == observe(gu.match_full());
+    let mut out = Buf {
+        _align: [],
+        bytes: [Tag(0); 2 * Group::WIDTH],
+    };
+    unsafe {
+        g.convert_special_to_empty_and_full_to_deleted()
+            .store_aligned(out.bytes.as_mut_ptr());
+    }
+    GroupObs {
+        match_tag: observe(g.match_tag(t)),
+        match_empty: observe(g.match_empty()),
+        match_empty_or_deleted: observe(g.match_empty_or_deleted()),
+        match_full: observe(g.match_full()),
+        converted: out.bytes[..Group::WIDTH].iter().map(|t| t.0).collect(),
+        loads_agree,
+    }
+}
